@@ -91,6 +91,7 @@ type interpreter struct {
 	domains     map[int]int
 	fe          *fastEvaluator
 	doms        map[int]*varDomain
+	hardAssume  bool // the assumption defines a variable's domain: the solver must see it
 	scratch     []uint64
 	prefiltered int
 	dbgCount    int
@@ -704,7 +705,7 @@ func (i *interpreter) assume(v value) {
 			panic(pathAbort{"infeasible", "assumption false"})
 		}
 	case sym:
-		if i.domainEval(c.t, false, false) == 1 {
+		if i.domainEval(c.t, false, false) == 1 && !i.hardAssume {
 			return
 		}
 		i.domainEval(c.t, true, true)
